@@ -385,7 +385,7 @@ def run_property(mod, tier, seed):
                 if mv["bucket"] == v["bucket"]:
                     mv["count"] += v["count"]
                     if len(jdump(v["case"])) < len(jdump(mv["case"])):
-                        mv["case"], mv["detail"] = v["case"], v["detail"]
+                        mv["case"], mv["detail"], mv["kind"] = v["case"], v["detail"], v["kind"]
                     break
             else:
                 merged.violations.append(dict(v))
